@@ -6,9 +6,10 @@ from ufo import build, err_kind, rat
 import lib_C10 as L
 
 ID = "C10"
-PROOF_FILES = ["C10"]
+PROOF_FILES = ["C10", "C10Var"]
 THEOREM = ("Ufo2ft.C10.C10_kern / C10_kern_reproduced / C10_kern_glyph / C10_anchor / C10_collapse / C10_compat / "
-           "deltaModel_law / oneAxis_law / C10_outline_partial")
+           "deltaModel_law / oneAxis_law / nAxis_law / variationModel_law / C10_varmodel / support_self / support_later_zero / "
+           "C10_outline_partial")
 N = {"quick": 120, "thorough": 4000}
 RULE = ("compatible families in memory: 2-6 full masters on 1-2 axes (default + extremes, optional intermediate(s), optional two-axis "
         "corner), optionally a sparse layer master at an intermediate location, axis maps with non-linear nodes, default source not "
@@ -19,8 +20,15 @@ RULE = ("compatible families in memory: 2-6 full masters on 1-2 axes (default + 
         "(mark, mark-to-mark, composite) with x.5/x.25 coordinates; feature files: none / equal modulo comments and white space / an "
         "extra unused class in some master / only the default has text. Function level: KernFeatureWriter.getKerningGroups / "
         "getVariableKerningPairs, BaseFeatureWriter._getAnchor, util.collapse_varscalar, get_userspace_location, "
-        "featureCompiler._featuresCompatible and (external) varLib VariationModel on one axis are called directly and compared with the "
+        "featureCompiler._featuresCompatible and (external) varLib VariationModel are called directly and compared with the "
         "Lean model (+ a stream outside the contract: duplicate locations, no full source at the default location, differing groups). "
+        "VariationModel: one axis (chains of masters on both sides) and n axes = 2 (sometimes 1 or 3) axes with the default, on-axis "
+        "masters (extremes and intermediates), corners of faces/cube, intermediate masters inside the quadrants (same-quadrant clusters "
+        "in search mode), random master order, random dict key order, explicit zeros or sparse dicts, axisOrder none/empty/partial/"
+        "full/with a foreign axis, a small stream of rejected inputs (duplicate location, no base master); the sorted order, every "
+        "support box, reverseMapping, deltas and interpolated values at 4 points and at every master are compared exactly with the "
+        "real class run on doubles when all coordinates are in {0, +-1/2, +-1} (every ratio dyadic), otherwise order/supports exactly "
+        "(also against the same class run on fractions.Fraction) and numbers within 1e-9. "
         "End to end: compileVariableTTF(s)/compileVariableCFF2(s) with variableFeatures on and off, single and multi-VF designspaces; "
         "which layout path was taken is observed; each variable font is instantiated (fontTools instancer, saved and re-read) at each of "
         "its full masters' locations and compared with the interpolatable master (outline/advance numbers within 1), with the MODEL's "
@@ -29,8 +37,11 @@ RULE = ("compatible families in memory: 2-6 full masters on 1-2 axes (default + 
         "pair) (the property). non-trivial = the family has a kerning key that is absent in some full master and an exception chain, "
         "or a sparse master.")
 ASSUMED = ["varLib.build_many / merger / instancer and feaLib's variation-store builder reproduce master values at master locations "
-           "(the VarModel law: a hypothesis in Lean, proved for fontTools' delta construction given its support facts and for one axis in "
-           "full; measured here on every family through instancer.instantiateVariableFont)",
+           "(the VarModel law: a hypothesis in Lean about the COMPILED tables; proved for the modelled fontTools VariationModel - sort, "
+           "_computeMasterSupports, supportScalar, getDeltas, interpolateFromDeltas on exact rationals - for any number of axes and "
+           "masters; measured here on every family through instancer.instantiateVariableFont)",
+           "VariationModel's double arithmetic equals the rational model: exact on dyadic grids (compared exactly), within 1e-9 otherwise; "
+           "the OpenType stores additionally round deltas to integers (C10_outline_partial: within 1 unit)",
            "feaLib compiles pair rules as written (glyph pairs before class pairs, first definition wins) - C05's assumption",
            "all sources of a family carry the same kerning groups and the same anchor inventory (what 'compatible masters' means for layout)"]
 EXHAUSTIVE = False
@@ -65,6 +76,7 @@ def gen(rng, n, mode):
         yield {"kind": "collapse", "items": [L.gen_scalar(rng, mode) for _ in range(40)]}
         yield {"kind": "compat", "items": [L.gen_texts(rng, mode) for _ in range(25)]}
         yield {"kind": "varmodel", "items": [L.gen_varmodel(rng, mode) for _ in range(25)]}
+        yield {"kind": "varmodel", "items": [L.gen_varmodelN(rng, mode) for _ in range(40)]}
     for i in range(max(4, n // 2)):
         yield {"kind": "func", "fam": L.gen_func_family(rng, mode)}
     for i in range(n):
@@ -111,7 +123,13 @@ LEVEL_TEXT = ("Proved for all inputs (Lean, unbounded numbers of sources / keys 
               "(glyph-class key missing in a master that has the class-glyph key; counterexample proved); variable anchors carry otRound of "
               "each source layer's anchor at that layer's location; collapse_varscalar returns a number only if all entries equal it; "
               "_featuresCompatible's decision; the master-reproduction law itself is proved for fontTools' delta construction from its two "
-              "support facts, and those facts are proved for one axis with any number of masters.")
+              "support facts, and those facts are proved for ANY number of axes and masters (on the axes, at corners, intermediate, in "
+              "any order given to the constructor, with explicit zeros): each master's support scalar is 1 at its own location "
+              "(support_self), the box-narrowing loop of _computeMasterSupports puts every earlier master outside a later master's "
+              "box (loop invariant regionFold_inv, support_later_zero; of the master order only 'fewer axes first' is needed, and the "
+              "modelled sort key is proved to be a total preorder refining it), hence interpolateFromDeltas(loc_i, getDeltas(values)) "
+              "= values[i] (nAxis_law; variationModel_law for the constructor on the user's order); the one-axis definitions are "
+              "proved to be the one-axis case of the n-axis ones.")
 LEVEL_NOTE = ("Trusted: Lean kernel + standard axioms; the hand-written model is tied to the code by direct calls of the anchored functions and "
               "by instantiating compiled variable fonts; varLib/feaLib/instancer are assumed to satisfy the VarModel law (measured, not proved; "
               "outlines within 1 unit); with more than one intermediate master per axis integer deltas make kerning/anchors exact only within 1 "
